@@ -548,7 +548,8 @@ def _descendant_failed(st, nid):
 
 
 # ---------------------------------------------------------------------------------------------------------------------
-# join_all_threads on a batch with a time limit (monitor only: the Lean model has no timed join_all)
+# join_all_threads on a batch with a real Till as time limit (monitor only; the trace-accepted scenarios cover join_all with an
+# environment-fired limit)
 # ---------------------------------------------------------------------------------------------------------------------
 def gen_batch(rng):
     n = rng.randint(2, 5)
